@@ -198,7 +198,7 @@ func evalC15(c c15Case) (fl *Failure) {
 	}
 	// registryIs: the registry holds exactly n connections (polled briefly: deregistration of a closed probe is asynchronous)
 	registryIs := func(n int, when string) *Failure {
-		deadline := time.Now().Add(3 * time.Second)
+		deadline := time.Now().Add(10 * time.Second)
 		for {
 			got := len(srv.Conns())
 			if got == n {
@@ -247,7 +247,7 @@ func evalC15(c c15Case) (fl *Failure) {
 		return nil
 	}
 	noGoroutines := func(when string) *Failure {
-		if gs := sched.SettleNoServerGoroutines(5 * time.Second); len(gs) > 0 {
+		if gs := sched.SettleNoServerGoroutines(15 * time.Second); len(gs) > 0 {
 			return failf("c15|goroutine-left", "%s: %s: %d server goroutines remain after Stop:\n%s", what, when, len(gs), firstLines(gs[0], 12))
 		}
 		return nil
